@@ -62,7 +62,7 @@ mut("elite-dropped-when-offspring-tie", ["C12"], [("pyhms/demes/single_pop_eas/s
 mut("hibernation-never-wakes", ["C18"], [("pyhms/tree.py", "                    deme._hibernating = False\n", "                    pass\n")])
 mut("dump-reseeds-rng", ["C19"], [("pyhms/tree.py", "        with open(filepath, \"wb\") as f:\n            pkl.dump(self, f)",
                                    "        np.random.seed(self._random_seed)\n        with open(filepath, \"wb\") as f:\n            pkl.dump(self, f)")])
-mut("accessor-sorts-history-in-place", ["C20", "C02"], [("pyhms/demes/abstract_deme.py",
+mut("accessor-sorts-history-in-place", ["C20"], [("pyhms/demes/abstract_deme.py",
     "        return max(self.current_population) if self.current_population else None",
     "        self.current_population.sort(reverse=True)\n        return self.current_population[0] if self.current_population else None")])
 # --- further ones
